@@ -720,9 +720,16 @@ func runWorkers(ck *Check, p Params, work string) (merged *Result, harnessFail b
 				if race {
 					if ms, _ := filepath.Glob(out + ".race*"); len(ms) > 0 {
 						for _, m := range ms {
-							if b, err := os.ReadFile(m); err == nil {
+							// a racy tree can write gigabytes of reports: the first 2 MB of a log hold more distinct
+							// reports than are ever shown, and the signatures are de-duplicated anyway
+							if f, err := os.Open(m); err == nil {
+								b, _ := io.ReadAll(io.LimitReader(f, 2<<20))
+								f.Close()
+								os.Remove(m)
 								mu.Lock()
-								raceLogs = append(raceLogs, string(b))
+								if len(raceLogs) < 256 {
+									raceLogs = append(raceLogs, string(b))
+								}
 								mu.Unlock()
 							}
 						}
